@@ -197,6 +197,12 @@ def sensitivity(args):
                 row['replay_on_repo_exit'] = r2.returncode
             row['result'] = 'CAUGHT' if (c.returncode == 1 and viol) \
                 else 'MISSED'
+            ext = [l for l in c.stdout.splitlines()
+                   if l.startswith('EXTENSION-FINDING ')]
+            row['extension_findings'] = len(ext)
+            if meta.get('expect') == 'extension_finding':
+                row['result'] = 'EXTENSION-FINDING' if ext and \
+                    c.returncode == 0 else 'MISSED'
             if meta.get('expect') == 'out_of_scope':
                 row['result'] = 'OUT-OF-SCOPE(' + row['result'].lower() + ')'
         finally:
@@ -207,7 +213,8 @@ def sensitivity(args):
         print(json.dumps(row, sort_keys=True))
         sys.stdout.flush()
     missed = [r for r in rows if r.get('result') != 'CAUGHT'
-              and not str(r.get('result')).startswith('OUT-OF-SCOPE')]
+              and not str(r.get('result')).startswith('OUT-OF-SCOPE')
+              and r.get('result') != 'EXTENSION-FINDING']
     print('sensitivity: {} seeded changes, {} caught, {} not'.format(
         len(rows), len(rows) - len(missed), len(missed)))
     return 0 if not missed else 3
